@@ -334,15 +334,16 @@ class USBResetSequencer(Elaboratable):
             # will respond with an alternating sequence of K's and J's.
             with m.State('AWAIT_HOST_K'):
 
-                # If we don't see our response within 2.5ms, this isn't a compliant HS host. [USB2.0: 7.1.7.5].
-                # This is thus a full-speed host, and we'll act as a full-speed device.
-                with m.If(timer == self._CYCLES_2P5_MILLISECONDS):
-                    m.next = 'IS_LOW_OR_FULL_SPEED'
-
                 # Once we've seen our K, we're good to start observing J/K toggles.
                 with m.If(self.line_state == self._LINE_STATE_FS_HS_K):
                     m.next = 'IN_HOST_K'
                     m.d.usb += line_state_time.eq(0)
+
+                # If we don't see our response within 2.5ms, this isn't a compliant HS host. [USB2.0: 7.1.7.5].
+                # This is thus a full-speed host, and we'll act as a full-speed device.
+                # (This comes last so it can't be overridden: our timer only equals this value for one cycle.)
+                with m.If(timer == self._CYCLES_2P5_MILLISECONDS):
+                    m.next = 'IS_LOW_OR_FULL_SPEED'
 
 
             # IN_HOST_K: we're seeing a host Chirp K as part of our handshake; we'll
@@ -367,14 +368,15 @@ class USBResetSequencer(Elaboratable):
             # AWAIT_HOST_J -- we're waiting for the next Chirp J in the host chirp sequence
             with m.State('AWAIT_HOST_J'):
 
-                # If we've exceeded our maximum wait, this isn't a high speed host.
-                with m.If(timer == self._CYCLES_2P5_MILLISECONDS):
-                    m.next = 'IS_LOW_OR_FULL_SPEED'
-
                 # Once we've seen our J, start timing its duration.
                 with m.If(self.line_state == self._LINE_STATE_FS_HS_J):
                     m.next = 'IN_HOST_J'
                     m.d.usb += line_state_time.eq(0)
+
+                # If we've exceeded our maximum wait, this isn't a high speed host.
+                # (This comes last so it can't be overridden: our timer only equals this value for one cycle.)
+                with m.If(timer == self._CYCLES_2P5_MILLISECONDS):
+                    m.next = 'IS_LOW_OR_FULL_SPEED'
 
 
             # IN_HOST_J: we're seeing a host Chirp K as part of our handshake; we'll
